@@ -812,18 +812,24 @@ func (f *transformationCallable) updateEntries(item reflect.Value) error {
 	// |$|{"self": $}|) would store the object inside itself: the
 	// result could not be marshalled and walking it would never
 	// end. Store a copy of what the update saw instead.
-	if reach := make(map[uintptr]bool); jtypes.IsMap(item) {
-		collectMaps(updates, reach)
-		if reach[jtypes.Resolve(item).Pointer()] {
-			if updates, err = f.clone(updates); err != nil {
-				return err
-			}
-			updates = jtypes.Resolve(updates)
-		}
-	}
-
 	for _, key := range updates.MapKeys() {
-		item.SetMapIndex(key, updates.MapIndex(key))
+
+		value := updates.MapIndex(key)
+
+		// Only a value that reaches the object is copied: the
+		// others (e.g. the object's own members carried over by
+		// an update like |**|$|) must stay the objects that the
+		// pattern selected, or later updates would be lost.
+		if reach := make(map[uintptr]bool); jtypes.IsMap(item) {
+			collectMaps(value, reach)
+			if reach[jtypes.Resolve(item).Pointer()] {
+				if value, err = f.clone(value); err != nil {
+					return err
+				}
+			}
+		}
+
+		item.SetMapIndex(key, value)
 	}
 
 	return nil
